@@ -18,7 +18,7 @@ from fractions import Fraction
 from engine import dump, traces
 
 LEVEL = 'model_checking'
-PARTS = ['scope', 'lit', 'pow', 'chain', 'bin']
+PARTS = ['scope', 'lit', 'scaled', 'src', 'pow', 'chain', 'bin']
 OPFN = {'+': operator.add, '-': operator.sub, '*': operator.mul, '/': operator.truediv, '^': operator.pow}
 IOPFN = {'+': operator.iadd, '-': operator.isub, '*': operator.imul, '/': operator.itruediv, '^': operator.ipow}
 RNAME = {'+': '__radd__', '-': '__rsub__', '*': '__rmul__', '/': '__rtruediv__', '^': '__rpow__'}
@@ -69,7 +69,8 @@ def to_py(a, styp='int', dtype='int'):
 
 def entry_text(q):
     a, b, d = q
-    assert d == 1
+    if d != 1:
+        return '%d/%d' % (a, d) if b == 0 else '(%s)/%d' % (entry_text([a, b, 1]), d)
     if b == 0:
         return str(a)
     im = ('i' if abs(b) == 1 else '%d*i' % abs(b))
@@ -106,6 +107,79 @@ def array_text(a):
         step = len(flat) // sh[level]
         return '[' + ','.join(rec(level + 1, flat[i * step:(i + 1) * step]) for i in range(sh[level])) + ']'
     return rec(0, a['e'])
+
+
+def source_text(q, src):
+    """the scalar q = (a + b i)/d written as the value of a function call / negated call / product (MC: Sources)"""
+    a, b, d = q
+    plain = scalar_text(q, bare=True)
+    minus = scalar_text([-a, -b, d], bare=True)
+    if src == 'paren':
+        return '(%s)' % plain
+    if src == 'det':
+        return 'det([[%s,0],[0,1]])' % plain
+    if src == 'trace':
+        return 'trace([[%s,0],[0,0]])' % plain
+    if src == 'negdet':
+        return '(-det([[%s,0],[0,1]]))' % minus
+    if src == 'conj':
+        return 'conj(%s)' % scalar_text([a, -b, d], bare=True)
+    if src == 'dot':
+        return '([%s,0]*[1,0])' % plain
+    assert b == 0
+    if src == 're':
+        return 're(%s+i)' % plain
+    if src == 'abs':
+        return 'abs(%s)' % minus
+    if src == 'negabs':
+        return '(-abs(%s))' % plain
+    if src == 'sqrt':
+        f = Fraction(a, d) ** 2
+        return 'sqrt(%s)' % (str(f.numerator) if f.denominator == 1 else repr(f.numerator / f.denominator))
+    if src == 'norm':
+        return 'norm([%s,0])' % plain
+    raise ValueError(src)
+
+
+def source_applies(q, src, op='+', side='left'):
+    a, b, d = q
+    if src in ('det', 'negdet') and op == '^' and side == 'right':
+        return False        # numpy: det([[3,0],[0,1]]) = 3.0000000000000004, not an exact integer exponent
+    if src in ('paren', 'det', 'trace', 'negdet', 'conj', 'dot'):
+        return True
+    if b != 0:
+        return False
+    if src == 're':
+        return True
+    return a < 0 if src == 'negabs' else a >= 0
+
+
+ALL_SOURCES = ['det', 'trace', 'negdet', 'conj', 're', 'abs', 'negabs', 'sqrt', 'norm', 'dot', 'paren']
+_FUNCS = []
+
+
+def all_functions():
+    if not _FUNCS:
+        from mitxgraders.helpers.calc.mathfuncs import DEFAULT_FUNCTIONS, ARRAY_ONLY_FUNCTIONS, merge_dicts
+        _FUNCS.append(merge_dicts(DEFAULT_FUNCTIONS, ARRAY_ONLY_FUNCTIONS))
+    return _FUNCS[0]
+
+
+def source_forms(op, x, y, side, src):
+    """formula strings in which the scalar operand (x if side == 'left' else y) is the value of a function call"""
+    from mitxgraders.helpers.calc.expressions import evaluator
+    from mitxgraders.helpers.calc.mathfuncs import DEFAULT_VARIABLES
+    sc, arr = (x, y) if side == 'left' else (y, x)
+    stxt = source_text(sc['e'][0], src)
+    lit = '%s%s%s' % ((stxt, op, array_text(arr)) if side == 'left' else (array_text(arr), op, stxt))
+    var = '%s%sY' % (stxt, op) if side == 'left' else 'Y%s%s' % (op, stxt)
+
+    def var_thunk():
+        vs = dict(DEFAULT_VARIABLES)
+        vs['Y'] = to_py(arr, 'float', 'float')
+        return evaluator(var, variables=vs, functions=all_functions())[0]
+    return [('string-call/%s/literal' % src, lambda: evaluator(lit, variables=DEFAULT_VARIABLES, functions=all_functions())[0]),
+            ('string-call/%s/variable' % src, var_thunk)], lit
 
 
 def frac_text(nd):
@@ -231,7 +305,7 @@ def run_form(thunk, neg):
         return 'exc', e
 
 
-def bin_forms(op, x, y, neg, allowed_val=None, grader=True):
+def bin_forms(op, x, y, neg, allowed_val=None, grader=True, calls=False):
     """list of (form name, thunk) for a binary case; thunks return the library's result"""
     from mitxgraders.helpers.calc.expressions import evaluator
     from mitxgraders.helpers.calc.mathfuncs import DEFAULT_VARIABLES
@@ -266,6 +340,13 @@ def bin_forms(op, x, y, neg, allowed_val=None, grader=True):
         forms.append(('string-variable/%s' % st, var_thunk))
     if grader and op == '^' and not sx and sy:
         forms.append(('grader', lambda: grader_form(x, y, neg, allowed_val, literal=(len(x['e']) % 2 == 0))))
+        forms.append(('grader-dependent', lambda: grader_form(x, y, neg, allowed_val, literal=(len(x['e']) % 2 == 1),
+                                                              dependent=True)))
+    if calls and sx != sy:
+        side = 'left' if sx else 'right'
+        q = (x if sx else y)['e'][0]
+        for src in [s for s in ALL_SOURCES if source_applies(q, s, op, side)]:
+            forms += source_forms(op, x, y, side, src)[0]
     return forms, ftxt
 
 
@@ -275,11 +356,21 @@ class GraderSaid(object):
         self.ok = ok
 
 
-def grader_form(x, y, neg, allowed_val, literal):
+def dependent_config():
+    """a grader configuration with computed (dependent) variables: n drawn from a set, B and m computed from it"""
+    from mitxgraders import DependentSampler
+    return dict(variables=['n', 'B', 'm'],
+                sample_from={'n': [2, 3], 'B': DependentSampler(depends=['n'], formula='n*X'),
+                             'm': DependentSampler(depends=['n'], formula='n^2+1')})
+
+
+def grader_form(x, y, neg, allowed_val, literal, dependent=False):
     """the student enters X^k (or the literal matrix ^k); the author's answer is the value the spec computed"""
     from mitxgraders import MatrixGrader
     answer = value_text(allowed_val) if allowed_val is not None else 'X'
     cfg = dict(answers=answer, max_array_dim=None, user_constants={'X': to_py(x, 'float', 'float')}, samples=1)
+    if dependent:
+        cfg.update(dependent_config())
     if not neg:
         cfg['negative_powers'] = False
     g = MatrixGrader(**cfg)
@@ -363,7 +454,13 @@ def scope_call(call, graders):
                 return 'value' if compare_value(A ** -1, SCOPE_INV) == 'ok' else 'other:wrong value'
             if call == 'op_pos':
                 return 'value' if compare_value(A ** 2, SCOPE_SQ) == 'ok' else 'other:wrong value'
-            if call == 'gd_neg':
+            if call == 'gdd_neg':
+                r = graders['disd_inv'](None, 'A^-1')
+            elif call == 'gdd_pos':
+                r = graders['disd_sq'](None, 'A^2')
+            elif call == 'ged_neg':
+                r = graders['end_inv'](None, 'A^(-1)')
+            elif call == 'gd_neg':
                 r = graders['dis_inv'](None, 'A^-1')
             elif call == 'gd_pos':
                 r = graders['dis_sq'](None, 'A^2')
@@ -378,9 +475,18 @@ def scope_call(call, graders):
 
 
 def scope_graders():
-    from mitxgraders import MatrixGrader
+    from mitxgraders import MatrixGrader, DependentSampler
     A = to_py(SCOPE_A, 'int', 'float')
-    return {'dis_inv': MatrixGrader(answers=value_text(SCOPE_INV), user_constants={'A': A}, negative_powers=False,
+
+    def dep():
+        return dict(variables=['n', 'B'], sample_from={'n': [2, 3], 'B': DependentSampler(depends=['n'], formula='n*A')})
+    return {'disd_inv': MatrixGrader(answers=value_text(SCOPE_INV), user_constants={'A': A}, negative_powers=False,
+                                     max_array_dim=2, samples=1, **dep()),
+            'disd_sq': MatrixGrader(answers=value_text(SCOPE_SQ), user_constants={'A': A}, negative_powers=False,
+                                    max_array_dim=2, samples=2, **dep()),
+            'end_inv': MatrixGrader(answers=value_text(SCOPE_INV), user_constants={'A': A}, max_array_dim=2,
+                                    samples=1, **dep()),
+            'dis_inv': MatrixGrader(answers=value_text(SCOPE_INV), user_constants={'A': A}, negative_powers=False,
                                     max_array_dim=2, samples=1),
             'dis_sq': MatrixGrader(answers=value_text(SCOPE_SQ), user_constants={'A': A}, negative_powers=False,
                                    max_array_dim=2, samples=1),
@@ -420,6 +526,12 @@ def case_of_state(c):
     if c['kind'] == 'pow':
         return {'kind': 'bin', 'op': '^', 'neg': c['neg'], 'x': {'sh': [2, 2], 'e': list(c['r1']) + list(c['r2'])},
                 'y': c['y'], 'part': 'pow'}
+    if c['kind'] == 'scaled':
+        return {'kind': 'bin', 'op': '^', 'neg': c['neg'], 'x': c['x'], 'y': c['y'], 'part': 'scaled'}
+    if c['kind'] == 'src':
+        x, y = (c['s'], c['a']) if c['side'] == 'left' else (c['a'], c['s'])
+        return {'kind': 'bin', 'op': c['op'], 'neg': True, 'x': x, 'y': y, 'part': 'src', 'side': c['side'],
+                'src': c['src']}
     d = dict(c)
     d['part'] = c['kind']
     return d
@@ -484,7 +596,11 @@ def rank_name(a):
 
 
 def replay_case(case, allowed, out):
-    if case['kind'] == 'bin':
+    if case['kind'] == 'bin' and 'src' in case:
+        forms, ftxt = source_forms(case['op'], case['x'], case['y'], case['side'], case['src'])
+        neg = True
+        key = ('src', case['op'], case['side'], case['src'], allowed['k'], allowed.get('why', ''))
+    elif case['kind'] == 'bin':
         forms, ftxt = bin_forms(case['op'], case['x'], case['y'], case['neg'],
                                 allowed['v'] if allowed['k'] == 'val' else None)
         neg = case['neg']
@@ -511,6 +627,8 @@ def replay_case(case, allowed, out):
                    'observed': detail, 'class': verdict}
             if case['kind'] == 'bin':
                 sig.update(op=case['op'], x=case['x'], y=case['y'])
+                if 'src' in case:
+                    sig.update(side=case['side'], src=case['src'])
                 if allowed.get('why') == 'zero-division':
                     sig['class'] = 'zero-divisor-' + verdict
             else:
@@ -561,25 +679,41 @@ def rand_shape(rng, maxd=6):
     return [rng.randint(1, 3), rng.randint(1, 3), rng.randint(2, 3)]
 
 
-def square_for_power(rng, n, cplx, singular, k):
-    """a square matrix whose k-th inverse power stays inside TLC's integers (bounded by construction and checked with
-    floating point estimates; this selects cases, it does not judge them)"""
+def square_for_power(rng, n, cplx, singular, exp):
+    """a square matrix (possibly multiplied by a large scalar) whose exp-th power stays inside TLC's integers (bounded
+    by construction and checked with floating point estimates; this selects cases, it does not judge them)"""
+    import math
     import numpy as np
-    for _ in range(200):
+    scales = {2: [1, 10, 100, 1000, (10, 10)], 3: [1, 7, 10, 30, (10, 10)], 4: [1, 7, 10]}.get(n, [1])
+    kk = max(1, abs(exp))
+    for _ in range(300):
         a = rand_array(rng, [n, n], cplx, sparse=n >= 4)
+        sc = rng.choice(scales) if rng.random() < .5 else 1
+        sr, si = sc if isinstance(sc, tuple) else (sc, 0)
         if singular:
             i, j = rng.sample(range(n), 2)
-            for col in range(n):          # row i := 2 * row j
-                src = a['e'][j * n + col]
-                a['e'][i * n + col] = [2 * src[0], 2 * src[1], 1]
-            return a
+            r3 = rng.choice([r for r in range(n) if r not in (i, j)]) if n >= 3 and rng.random() < .6 else None
+            for col in range(n):          # row i := 2 * row j   or   row j + row r3
+                s1 = a['e'][j * n + col]
+                s2 = a['e'][r3 * n + col] if r3 is not None else s1
+                a['e'][i * n + col] = [s1[0] + s2[0], s1[1] + s2[1], 1]
+        a['e'] = [[q[0] * sr - q[1] * si, q[0] * si + q[1] * sr, 1] for q in a['e']]
         m = np.array([complex(q[0], q[1]) for q in a['e']]).reshape(n, n)
+        top = np.abs(m).max() * (2 if any(q[1] for q in a['e']) else 1)
+        if exp >= 0:
+            if (top ** kk) * (n ** (kk - 1)) * 4 < 2e9:
+                return a
+            continue
+        if (top ** n) * math.factorial(n) * 2 >= 2e9:          # the determinant expansion itself
+            continue
+        if singular:
+            return a
         det = np.linalg.det(m)
         if abs(det) < 0.5:
             continue
         adj = det * np.linalg.inv(m)
-        big = (np.abs(adj).max() ** k) * (n ** (k - 1)) * (abs(det) ** k)
-        if abs(det) ** (2 * k) <= 5e4 and big * 8 < 2e9:
+        big = (np.abs(adj).max() ** kk) * (n ** (kk - 1)) * (abs(det) ** kk)
+        if abs(det) ** (2 * kk) <= 5e4 and big * 8 < 2e9:
             return a
     return None
 
@@ -637,7 +771,7 @@ def rand_bin_case(rng):
             n = rng.choice([2, 2, 3, 3, 4, 5])
             k = rng.choice([-4, -3, -2, -1, -1, 0, 1, 2, 3, 4] if n <= 3 else [-2, -1, -1, 0, 1, 2, 3])
             singular = rng.random() < .25
-            x = square_for_power(rng, n, cplx, singular, max(1, abs(k)))
+            x = square_for_power(rng, n, cplx, singular, k)
             if x is None:
                 return None
             if rng.random() < .12:
@@ -711,7 +845,12 @@ def observe_chunk(cases, extra):
     recs = []
     for c in cases:
         if c['kind'] == 'bin':
-            forms, ftxt = bin_forms(c['op'], c['x'], c['y'], c['neg'], grader=False)
+            forms, ftxt = bin_forms(c['op'], c['x'], c['y'], c['neg'], grader=False, calls=True)
+            called = [f for f in forms if f[0].startswith('string-call')]
+            if called:          # a scalar operand: 40% of the picks render it as the value of a function call
+                plain = [f for f in forms if not f[0].startswith('string-call')]
+                forms = called if c['pick'] < .4 else plain
+                c = dict(c, pick=(c['pick'] / .4 if c['pick'] < .4 else (c['pick'] - .4) / .6))
         else:
             forms, ftxt = chain_forms(c['xs'], c['ops'], c['grp'])
         name, thunk = forms[int(c['pick'] * len(forms)) % len(forms)]
@@ -859,7 +998,7 @@ def replay(ctx, rec):
     case = {k: sig[k] for k in ('kind', 'op', 'x', 'y', 'xs', 'ops', 'grp') if k in sig}
     case['neg'] = sig['neg_powers']
     if case['kind'] == 'bin':
-        forms, ftxt = bin_forms(case['op'], case['x'], case['y'], case['neg'], grader=False)
+        forms, ftxt = bin_forms(case['op'], case['x'], case['y'], case['neg'], grader=False, calls=True)
     else:
         forms, ftxt = chain_forms(case['xs'], case['ops'], case['grp'])
     thunk = dict(forms).get(sig['form']) or dict(forms)['string-literal']
